@@ -365,6 +365,7 @@ theorem handleSubmoduleLog_pco {cfg : Cfg} {m m' : M} {l : L} {b : Bool} (nf : C
       rcases ppend_cases hp with h | ⟨_, h, _⟩
       · exact h
       · simp [startsWith_false_of_bodyHead h.2 nonBody_submoduleLog] at ht
+    rw [pendingDiffName_co nf.1 ((flushMP_modeInfo m).trans inv.mode), handleAdditionalCases_flushMP] at e
     exact handleAdditionalCases_pco nf inv hp0 rfl e
 
 theorem handleSubmoduleShort_pco {cfg : Cfg} {m m' : M} {l : L} {b : Bool} (nf : CONormal cfg) (inv : PInv m)
@@ -715,7 +716,7 @@ theorem handlerOf_tsp {name : String} {hd : Handler} (hn : handlerOf name = some
          | exact handleDiffHeaderDiff_tsp ps inv.mode hnc e | exact handleFileOperation_ts ps e
          | exact handleMinusLine_tsp ps inv.source e | exact handlePlusLine_ts ps e
          | exact handleHunkHeader_ts e | exact handleModeLine_ts ps e
-         | exact handleMisc_tsp ps hu e | exact handleSubmoduleLog_ts ps e
+         | exact handleMisc_tsp ps hu e | exact handleSubmoduleLog_ts ps inv.mode e
          | exact handleSubmoduleShort_ts ps e | exact handleMergeConflict_ts ps e
          | exact handleHunkLine_ts ps g hu e | exact handleGitShowFile_ts e
          | exact handleBlame_ts g e | exact handleGrep_ts g hg e
@@ -981,7 +982,8 @@ theorem handlerOf_aux {name : String} {hd : Handler} (hn : handlerOf name = some
     unfold handleSubmoduleLog at e
     split at e
     · cases e; exact ⟨id, fun _ _ _ => rfl⟩
-    · obtain ⟨h1, h2⟩ := handleAdditionalCases_counter e
+    · rw [pendingDiffName_co hco ((flushMP_modeInfo m).trans inv.mode), handleAdditionalCases_flushMP] at e
+      obtain ⟨h1, h2⟩ := handleAdditionalCases_counter e
       exact ⟨fun _ => by rw [h2]; rfl, fun _ _ _ => h1⟩
   · unfold handleSubmoduleShort at e
     simp only [hco, Bool.or_true, if_true] at e
